@@ -79,7 +79,7 @@ func alphabetC06() []m.Op {
 func init() {
 	both := []string{drv.BBolt, drv.Badger}
 	register("C06", "model_checking", func(run *ev.Run, tier string) string {
-		runSS(run, tier, []string{"consistency", "names3", "indexes"}, both, "", own("count", "rawkeys", "indexquery", "rebuild"), nil)
+		runSS(run, tier, []string{"consistency", "names3", "indexes", "nested"}, both, "", own("count", "rawkeys", "indexquery", "rebuild"), nil)
 		// multi-page collections: drops, index builds and bulk rewrites at every size
 		eng.BulkSweep(&eng.BulkConfig{Backends: both, Sizes: sizesUpTo(map[string]int{"quick": 72, "thorough": 300}[tier]), Pads: []int{0}, IndexSets: [][]string{{"x"}, {"x", "xy"}},
 			Ops: eng.BulkOpsNamed("delete-all", "updatefunc-all-inplace", "update-rewrites-filter-field", "drop-and-recreate", "create-index-on-existing", "create-index-prefix-sibling", "drop-index-x")},
